@@ -305,3 +305,27 @@ pub open spec fn emsg_wire(b: EmsgBox) -> bool {
     &&& (b.version == 0 ==> b.presentation_time_delta is Some) && (b.version == 1 ==> b.presentation_time is Some)
     &&& len_fits(emsg_len(b))
 }
+
+// ---- ISO/IEC 14496-1 8.3.3 expandable length ("sizeOfInstance"): up to four bytes, seven payload bits each, msb = another byte follows
+pub open spec fn desc_groups(d: Seq<u8>, p: int, i: int) -> int
+    decreases i
+{
+    if i <= 0 { 0 } else { desc_groups(d, p, i - 1) * 128 + (d[p + i - 1] & 0x7f) }
+}
+pub open spec fn desc_more(d: Seq<u8>, p: int, i: int) -> bool { forall|j: int| 0 <= j < i ==> #[trigger] d[p + j] & 0x80 != 0 }
+pub open spec fn desc_len_bytes(d: Seq<u8>, p: int) -> int {
+    if d[p] & 0x80 == 0 { 1 } else if d[p + 1] & 0x80 == 0 { 2 } else if d[p + 2] & 0x80 == 0 { 3 } else { 4 }
+}
+pub open spec fn desc_len_value(d: Seq<u8>, p: int) -> int { desc_groups(d, p, desc_len_bytes(d, p)) }
+pub proof fn lemma_desc_groups_bound(d: Seq<u8>, p: int, i: int)
+    requires 0 <= i <= 4
+    ensures 0 <= desc_groups(d, p, i) < pow128(i)
+    decreases i
+{
+    if i > 0 {
+        lemma_desc_groups_bound(d, p, i - 1);
+        let b = d[p + i - 1];
+        assert(b & 0x7f <= 127) by(bit_vector);
+    }
+}
+pub open spec fn pow128(i: int) -> int { if i <= 0 { 1 } else if i == 1 { 128 } else if i == 2 { 16384 } else if i == 3 { 2097152 } else { 268435456 } }
